@@ -142,7 +142,7 @@ func relKind(typ string) string {
 
 func ruleFreshRelID(r *Run) { freshRelID(r, "", 10) }
 
-func ruleFreshRelIDImage(r *Run) { freshRelID(r, "image", 2) }
+func ruleFreshRelIDImage(r *Run) { freshRelID(r, "image", 1) }
 
 func freshRelID(r *Run, onlyKind string, min int) {
 	p := r.P
@@ -293,7 +293,7 @@ func collectPartStores(p *Program) []partStore {
 
 func ruleRelAttach(r *Run) { relAttach(r, nil, 12) }
 
-func ruleRelAttachImage(r *Run) { relAttach(r, map[string]bool{"image": true}, 2) }
+func ruleRelAttachImage(r *Run) { relAttach(r, map[string]bool{"image": true}, 1) }
 
 func relAttach(r *Run, kinds map[string]bool, min int) {
 	p := r.P
@@ -513,7 +513,7 @@ func refFlow(r *Run, wantHF, wantImg bool) {
 				"ImageInfo.RelationID must be the id stored in the image relationship created by the same call")
 		})
 	}
-	r.Min("image_info_relation_sites", nImg, 2)
+	r.Min("image_info_relation_sites", nImg, 1)
 	// (c) Blip.Embed ← ImageInfo.RelationID (outside the reader)
 	reader := buildReaderModel(p)
 	nEmb := 0
@@ -630,7 +630,7 @@ func ruleMediaFresh(r *Run) {
 		r.Check("counter-inc", "media:"+shortName(ps.Fn), ps.MU.Pos(), len(incs) > 0 && mustPassThrough(ps.Fn, ps.MU, incs),
 			"nextImageID must be incremented on every path before the media part is stored")
 	}
-	r.Min("media_part_stores", nMedia, 2)
+	r.Min("media_part_stores", nMedia, 1)
 	// (3) media bytes unmodified: the stored value is the function's []byte parameter itself
 	for _, ps := range collectPartStores(p) {
 		ks := ps.Key.norm()
